@@ -313,8 +313,10 @@ def mmap_gate(ctx):
     ctx.check(len(keep) == 2, keep[0] if keep else v, "the mode survives validation only on the default path and the raw-uncompressed-file branch")
     inner = [a for a in keep if len(gv.conditions_at(gv.nodes_of(a))) > 1]
     for a in inner:
-        conds = {unparse(t): pol for (_, t, pol) in gv.conditions_at(gv.nodes_of(a))}
-        ctx.check(conds.get("isinstance(fileobj, io.BytesIO)") is False and conds.get("compressor != 'not-compressed'") is False and conds.get("not _is_raw_file(fileobj)") is False, a,
+        from ..core import cond_holds
+        cl_ = gv.conditions_at(gv.nodes_of(a))
+        conds = {unparse(t): pol for (_, t, pol) in cl_}
+        ctx.check(cond_holds(cl_, "isinstance(fileobj, io.BytesIO)", False) and cond_holds(cl_, "compressor != 'not-compressed'", False) and cond_holds(cl_, "_is_raw_file(fileobj)", True), a,
                   "kept only for uncompressed, on-disk, raw files", "mmap_mode is kept under %s" % conds)
     nul = [a for a in sets if is_const(a.value, None)]
     ctx.check(bool(nul), nul[0] if nul else v, "and nulled first whenever a mode was requested")
@@ -383,7 +385,8 @@ def threshold(ctx):
     d = [c for c in calls_in(t[0]) if call_name(c) == "dump"]
     ctx.check(bool(d) and [dotted(x) for x in d[0].args] == ["a", "filename"], d[0] if d else t[0], "the array itself is dumped to the temporary file")
     if d:
-        ctx.check(any(unparse(tt) == "not os.path.exists(filename)" and pol for (_, tt, pol) in g.conditions_at(g.nodes_of(d[0]))), d[0], "once per file")
+        from ..core import cond_holds
+        ctx.check(cond_holds(g.conditions_at(g.nodes_of(d[0])), "os.path.exists(filename)", False), d[0], "once per file")
     bm = [n for n in nodes_of_type(f, ast.If) if unparse(n.test) == "m is not None and isinstance(m, np.memmap)"]
     ctx.check(bool(bm) and any(isinstance(s_, ast.Return) and unparse(s_.value) == "_reduce_memmap_backed(a, m)" for s_ in bm[0].body), bm[0] if bm else f, "arrays already backed by a memmap are passed by reference")
     fl = [a for a in nodes_of_type(f, ast.Assign) if "filename" in stores_to(a)]
